@@ -892,8 +892,8 @@ func main() {
 	nloop := 0
 	if os.Getenv("VERIF_SCENARIO") == "" {
 		for _, ls := range []*scenario{
-			{name: "loop/off", init: off, ids: ids[:1], kinds: []fx.Kind{fx.Root, fx.Child, fx.SpanEvent}, stress: []fx.Kind{fx.Root}, opts: []string{"host", "counts", "attrs", "reason"}, sampler: rulesByRoot},
-			{name: "loop/on", init: on, ids: ids[:1], kinds: []fx.Kind{fx.Root, fx.Child, fx.Link}, stress: []fx.Kind{fx.Root}, opts: []string{"host", "counts", "attrs", "reason"}, sampler: rulesByRoot},
+			{name: "loop/off", init: off, ids: ids[:1], kinds: []fx.Kind{fx.Root, fx.Child, fx.SpanEvent}, stress: []fx.Kind{fx.Root}, opts: []string{"host", "attrs"}, sampler: rulesByRoot},
+			{name: "loop/on", init: on, ids: ids[:1], kinds: []fx.Kind{fx.Root, fx.Link}, stress: []fx.Kind{fx.Root}, opts: []string{"host", "counts", "reason"}, sampler: rulesByRoot},
 		} {
 			d := q(3, 4)
 			t := time.Now()
